@@ -91,6 +91,12 @@ pub(crate) fn get_paths_and_contents_for_imperatively_loaded_field<
 
     let root_fetchable_field = entrypoint.name;
 
+    #[cfg(feature = "isographlabs_isograph_verif")]
+    crate::verif::rec_query(
+        query_name,
+        query_text_selection_map_wrapped.clone().inner().reference(),
+        definitions_of_used_variables.iter(),
+    );
     let query_text = TCompilationProfile::NetworkProtocol::generate_query_text(
         db,
         root_entity,
@@ -100,6 +106,14 @@ pub(crate) fn get_paths_and_contents_for_imperatively_loaded_field<
         Format::Pretty,
     );
 
+    #[cfg(feature = "isographlabs_isograph_verif")]
+    crate::verif::rec_operation_text(
+        query_name,
+        query_text_selection_map_wrapped.clone().inner().reference(),
+        definitions_of_used_variables.iter(),
+        root_entity,
+        persisted_documents,
+    );
     let operation_text = generate_operation_text(
         db,
         query_name,
@@ -110,11 +124,34 @@ pub(crate) fn get_paths_and_contents_for_imperatively_loaded_field<
         1,
     );
 
+    #[cfg(feature = "isographlabs_isograph_verif")]
+    crate::verif::rec_norm(
+        normalization_ast_wrapped_selection_map
+            .clone()
+            .inner()
+            .reference(),
+    );
     let normalization_ast_text = generate_normalization_ast_text(
         normalization_ast_wrapped_selection_map.inner().values(),
         1,
     );
 
+    #[cfg(feature = "isographlabs_isograph_verif")]
+    {
+        crate::verif::rec_schema(
+            db,
+            root_entity,
+            query_text_selection_map_wrapped.clone().inner().reference(),
+        );
+        crate::verif::rec_refetch_meta(
+            root_parent_object,
+            root_fetchable_field,
+            index,
+            file_extensions.ts(),
+            root_entity,
+        );
+        crate::verif::rec_flush("R");
+    }
     let file_name_prefix = format!("{}__{}.ts", *REFETCH_FIELD_NAME, index)
         .intern()
         .into();
